@@ -94,5 +94,116 @@ def opGymSchedule : Op := fun j => do
     | _ => pure ()
   pure (.arr out)
 
-def ops : List (String × Op) := [("wrappers.step", opStep), ("wrappers.gym_schedule", opGymSchedule)]
+/-! ### C15: the adapters on REAL native outcomes.  The "environment" handed to the model replays what the harness
+measured on the real environment: `reset k` answers with a token naming the key it was called with, `step _ a`
+answers with the native outcome carried by the action `a`.  The model then says what every field of the adapter's
+output has to be. -/
+
+structure Native where
+  stepType : Jm.StepType
+  reward : Json
+  discount : Json
+
+def getNative (j : Json) : Except String Native := do
+  pure { stepType := ← getStepType (← field j "step_type"), reward := ← field j "reward", discount := ← field j "discount" }
+
+def resetObs (k : Key) : Json := jObj [("reset_obs_of_key", jKey k)]
+
+/-- rewards / discounts stay opaque JSON (the dm_env adapter only relays them) -/
+def replayEnvJ : Env Unit Native Json Json Unit :=
+  { reset := fun k => ((), { stepType := .first, reward := .null, discount := .null, obs := resetObs k, extras := () }),
+    step := fun _ a => ((), { stepType := a.stepType, reward := a.reward, discount := a.discount, obs := jStr "native_obs", extras := () }),
+    key := fun _ => .seed 0 }
+
+def jOpt (o : Option Json) : Json := match o with | some j => j | none => .null
+
+/-- {"seed": n, "ops": ["reset" | {"step": {step_type, reward, discount}}]} (adapter constructed with PRNGKey(n)) →
+per call {"step_type", "reward"|null, "discount"|null, "obs": {"reset_obs_of_key": key term} | "native_obs"} | "error" -/
+def opDmRun : Op := fun j => do
+  let n ← fNat j "seed"
+  let ops ← getList pure (← field j "ops")
+  let mut st : DmEnv.St Unit := DmEnv.init (.seed n)
+  let mut out : Array Json := #[]
+  for o in ops do
+    let op : DmEnv.Op Native ← match o with
+      | .str "reset" => pure DmEnv.Op.reset
+      | _ => do pure (DmEnv.Op.step (← getNative (← field o "step")))
+    let (st', r) := DmEnv.run1 replayEnvJ st op
+    st := st'
+    match r with
+    | .ts t => out := out.push (jObj [("step_type", jStepType t.stepType), ("reward", jOpt t.reward),
+                                       ("discount", jOpt t.discount), ("obs", t.obs)])
+    | .error => out := out.push (jStr "error")
+  pure (.arr out)
+
+structure NativeQ where
+  stepType : Jm.StepType
+  reward : Rat
+  discount : Rat
+
+def getNativeQ (j : Json) : Except String NativeQ := do
+  pure { stepType := ← getStepType (← field j "step_type"), reward := ← fRat j "reward", discount := ← fRat j "discount" }
+
+def replayEnvQ : Env Unit NativeQ Json Rat Unit :=
+  { reset := fun k => ((), { stepType := .first, reward := 0, discount := 1, obs := resetObs k, extras := () }),
+    step := fun _ a => ((), { stepType := a.stepType, reward := a.reward, discount := a.discount, obs := jStr "native_obs", extras := () }),
+    key := fun _ => .seed 0 }
+
+/-- the gym adapter with `R := Rat`, `isZero := (· == 0)`:
+{"seed": n, "ops": ["reset" | {"step": {step_type, reward, discount}} | {"seed": m} | {"reset_seed": m}]} →
+per call null | {"obs": {"reset_obs_of_key": …}} | {"obs": "native_obs", "reward", "terminated", "truncated"} | "error" -/
+def opGymRun : Op := fun j => do
+  let n ← fNat j "seed"
+  let ops ← getList pure (← field j "ops")
+  let mut st : Gym.St Unit := Gym.init n
+  let mut out : Array Json := #[]
+  for o in ops do
+    let op : Gym.Op NativeQ ← match o with
+      | .str "reset" => pure (Gym.Op.reset none)
+      | _ => match o.getObjVal? "seed" with
+        | .ok v => do pure (Gym.Op.seed (← getNat v))
+        | .error _ => match o.getObjVal? "reset_seed" with
+          | .ok v => do pure (Gym.Op.reset (some (← getNat v)))
+          | .error _ => do pure (Gym.Op.step (← getNativeQ (← field o "step")))
+    let (st', r) := Gym.run1 replayEnvQ (fun d => d == 0) st op
+    st := st'
+    match r with
+    | .none => out := out.push .null
+    | .obs ob _ => out := out.push (jObj [("obs", ob)])
+    | .stepped ob rw term trunc _ =>
+      out := out.push (jObj [("obs", ob), ("reward", jRat rw), ("terminated", jBool term), ("truncated", jBool trunc)])
+    | .error => out := out.push (jStr "error")
+  pure (.arr out)
+
+structure NativeL where
+  stepType : Jm.StepType
+  reward : List Rat
+  discount : List Rat
+
+def aggOf (name : String) : Except String (List Rat → Rat) :=
+  match name with
+  | "sum" => pure MultiToSingle.sumAgg | "max" => pure MultiToSingle.maxAgg
+  | "min" => pure MultiToSingle.minAgg | "mean" => pure MultiToSingle.meanAgg
+  | a => throw s!"unknown aggregator {a}"
+
+/-- {"agg_r": name, "agg_d": name, "mode": "reset"|"step", "native": {step_type, reward: [q…], discount: [q…]}} →
+what `MultiToSingleWrapper.reset/step` returns: {"state": "native_state", step_type, reward, discount, "obs": "native_obs",
+"extras": "native_extras"} -/
+def opMultiToSingle : Op := fun j => do
+  let aggR ← aggOf (← fStr j "agg_r")
+  let aggD ← aggOf (← fStr j "agg_d")
+  let nj ← field j "native"
+  let nat : NativeL := { stepType := ← getStepType (← field nj "step_type"), reward := ← fRats nj "reward", discount := ← fRats nj "discount" }
+  let ts : TS String (List Rat) String :=
+    { stepType := nat.stepType, reward := nat.reward, discount := nat.discount, obs := "native_obs", extras := "native_extras" }
+  let E : Env String Unit String (List Rat) String :=
+    { reset := fun _ => ("native_state", ts), step := fun _ _ => ("native_state", ts), key := fun _ => .seed 0 }
+  let r := match ← fStr j "mode" with
+    | "reset" => MultiToSingle.reset E aggR aggD (.seed 0)
+    | _ => MultiToSingle.step E aggR aggD "previous_state" ()
+  pure (jObj [("state", jStr r.1), ("step_type", jStepType r.2.stepType), ("reward", jRat r.2.reward),
+              ("discount", jRat r.2.discount), ("obs", jStr r.2.obs), ("extras", jStr r.2.extras)])
+
+def ops : List (String × Op) := [("wrappers.step", opStep), ("wrappers.gym_schedule", opGymSchedule),
+  ("wrappers.dm_run", opDmRun), ("wrappers.gym_run", opGymRun), ("wrappers.multi_to_single", opMultiToSingle)]
 end Jb.WrapperOps
